@@ -415,6 +415,9 @@ func startsWithLparenH(n syntax.Node) bool {
 		return startsWithLparenH(n.X)
 	case *syntax.Subshell, *syntax.ArithmCmd:
 		return true
+	case *syntax.FuncDecl:
+		// zsh anonymous function `() { … }` (printer.go startsWithLparen since 9a4486a)
+		return !n.RsrvWord && n.Name == nil && len(n.Names) == 0
 	}
 	return false
 }
